@@ -38,6 +38,7 @@ struct Case {
   long preRot = -1; // >= 0: an earlier utterance of the same length (the audio rotated by this many samples) runs first
   int jsonLevel = 0;
   double jsonStart = 0;
+  int reFrate = 0; // C14: frame rate set on the live decoder before the utterance (0 = left as initialised)
 };
 
 const std::vector<std::string> &hostileWords();
@@ -46,7 +47,16 @@ std::string fmt3(double x);
 Case genCase(Choices &c, int queryPct, bool forJson = false, unsigned compallsenPct = 30) {
   Case k;
   k.decIdx = c.coin(compallsenPct) ? 1 : 0;
-  if (forJson) k.decIdx = (int)c.weighted({2, 1, 5, 2, 2});
+  if (forJson) {
+    // one choice: the remainder picks the decoder with weights 2,1,5,2,2 as before; one quotient value in four has
+    // the frame rate of that live decoder changed through its configuration and decoder_reinit_feat(d, NULL)
+    uint32_t dr = c.raw();
+    static const int W[] = {2, 1, 5, 2, 2};
+    int r = (int)(dr % 12);
+    k.decIdx = 0;
+    while (r >= W[k.decIdx]) r -= W[k.decIdx++];
+    if ((dr / 12) % 4 == 3) k.reFrate = (int[]){50, 80, 105, 125}[(dr / 48) % 4];
+  }
   k.sc = genSearchCfg(c);
   if (forJson && k.decIdx >= 2) k.gram = genGrammar(c, 0, 3, 4, &hostileWords());
   else k.gram = genGrammar(c);
@@ -82,7 +92,7 @@ Case genCase(Choices &c, int queryPct, bool forJson = false, unsigned compallsen
 std::string caseDesc(const Case &k) {
   std::ostringstream o;
   static const char *DN[] = {"default", "compallsen", "hostile-dict", "hostile-dict+frate50", "hostile-dict+frate105"};
-  o << "dec=" << DN[k.decIdx] << (k.jsonLevel || k.jsonStart != 0 ? " json(level=" + std::to_string(k.jsonLevel) + ",start=" + fmt3(k.jsonStart) + ")" : "") << " " << k.sc.str() << " | " << k.gram.desc << " | N=" << k.audio.size() << " "
+  o << "dec=" << DN[k.decIdx] << (k.reFrate ? " frate-set-to-" + std::to_string(k.reFrate) + "-then-reinit_feat" : "") << (k.jsonLevel || k.jsonStart != 0 ? " json(level=" + std::to_string(k.jsonLevel) + ",start=" + fmt3(k.jsonStart) + ")" : "") << " " << k.sc.str() << " | " << k.gram.desc << " | N=" << k.audio.size() << " "
     << k.audioDesc << (k.fullUtt ? " full_utt" : "") << " chunks=" << chunksStr(k.chunks) << (k.preRot >= 0 ? " after-same-length-utterance(rot=" + std::to_string(k.preRot) + ")" : "");
   return o.str();
 }
@@ -993,6 +1003,13 @@ Verdict runCase(Choices &c, Ctx &ctx, Which which) {
   c_posteriorTwice = which == W_C12 && c.coin(40);
   ctx.describe(caseDesc(k));
   decoder_t *d = gDec[k.decIdx];
+  if (k.reFrate && k.reFrate != gFrate[k.decIdx]) {
+    // documented way to change the frame rate of a live decoder (decoder.h, decoder_reinit_feat)
+    config_set_int(decoder_config(d), "frate", k.reFrate);
+    PBT_CHECK(decoder_reinit_feat(d, NULL) == 0, "reinit-feat-refused", "decoder_reinit_feat refused frate=" << k.reFrate);
+    gFrate[k.decIdx] = k.reFrate; // (this process is the forked child of the case)
+    ctx.label("frame-rate-changed-on-live-decoder");
+  }
   applySearchCfg(d, k.sc);
   int rc = install(d, k.gram);
   PBT_CHECK(rc == 0, std::string("install-refused:") + (k.gram.kind == Gram::JSGF ? "jsgf" : k.gram.kind == Gram::FSG ? "fsg" : "align"),
